@@ -385,7 +385,7 @@ class UTF16Modify(_WideBase):
 @register
 class C04Bounded(Bounded):
     """Native cross-check of the real modifiers (through SigmaDetectionItem.from_mapping) against Python's own codecs and
-    base64 for all payloads up to a length bound over a small alphabet, with random surrounding bytes.  Bounded - never
+    base64 for all payloads up to a length bound over a small alphabet (plus 16 payloads of 56..200 characters), with random surrounding bytes.  Bounded - never
     counted as proved; it is also the search that finds native failing inputs for abstract counter-models."""
     id = "C04.bounded.modifier_chains"
     props = ("C04",)
@@ -426,9 +426,11 @@ class C04Bounded(Bounded):
 
         def text_bytes(v):       # bytes a produced value denotes (literal text, utf-8)
             return M.native_text(v.s).encode("utf-8")
-        for ln in range(0, maxlen + 1):
-            for combo in itertools.product(alphabet, repeat=ln):
-                src = "".join(combo)
+        # payloads longer than one line of MIME-style Base64 (57 bytes; 29 characters after wide / utf16*): RFC 4648 text has no line breaks
+        long_sources = ["a" * k for k in (56, 57, 58, 59, 60, 113, 114, 115, 116, 171, 172, 200)] + ["ä" * 29, "x" * 28 + "Z", "ab" * 40, "Zä€" * 13]
+        all_sources = [("".join(combo), ln) for ln in range(0, maxlen + 1) for combo in itertools.product(alphabet, repeat=ln)] + [(x, 99) for x in long_sources]
+        for src, ln in all_sources:
+            if True:
                 payload = lit(src)
                 for chain in (["base64"], ["base64offset"], ["wide"], ["utf16le"], ["utf16be"], ["utf16"], ["wide", "base64"], ["wide", "base64offset"],
                               ["utf16be", "base64offset"], ["utf16", "base64"]):
